@@ -55,6 +55,11 @@ def gen_refine(rng):
     case["hpolicy"] = rng.choice(["fixed", "on_event", "before_event", "after_event", "at_tmin"])
     case["hpick"] = rng.random()
     case["sis_unfiltered"] = rng.random() < 0.5
+    # a quarter of the cases: the rule is a memo table that hands out the same list object for an ordered
+    # pair every time (unfiltered, independent of which infection of the source it is)
+    case["sis_shared_lists"] = rng.random() < 0.25
+    if case["sis_shared_lists"]:
+        case["sis_unfiltered"] = True
     # a fifth of the cases place one attempt at absolute time exactly 0.0 (tmin = -delay of one attempt
     # of an initially infected node): zero is a perfectly good time
     case["zero_hit"] = rng.random() < 0.2
